@@ -1,4 +1,189 @@
-(* C16 - placeholder while the correspondence is being validated *)
-From TT Require Import Lib.Base Model.Utf8 Model.MimeCt Model.Content Spec.C16 Corr.C16 Proof.C16.
-Example C16_example : model (IText [104%N]) = OText (canon_ct Gen.Ctc16.UTF8_TEXT) [104%N] (Ok [104%N]).
-Proof. vm_compute. reflexivity. Qed.
+(* C16 - Content is lossless and independent of chunking.
+   Only statements; every proof is `exact <lemma of Proof/C16.v or Proof/Utf8Sweep.v>`. *)
+From Coq Require Import String Permutation.
+From TT Require Import Lib.Base Lib.Sort Model.Utf8 Model.MimeCt Model.Content Spec.C16 Corr.C16 Proof.Utf8Sweep Proof.C16.
+
+(* The model meets the whole statement on every input of the eight scenario kinds: every text over Unicode scalar
+   values, every chunk list, every byte string under all its splits, every source content / position / seek offset
+   (any integer) / origin / chunk_size >= 1 / buffer_now, every pair of contents, every content type of the modelled
+   domain - outside the known finding F16 (full statement: the same without the finding_F16 hypothesis; it is false,
+   see C16_refuted_F16). *)
+Theorem C16_holds : forall i : input, wf i = true -> finding_F16 i = false -> spec_okb i (model i) = true.
+Proof. exact model_meets_spec. Qed.
+Print Assumptions C16_holds.
+
+(* F16: a content type inside the modelled domain (and inside the property's quantifier: lower-case token
+   type/subtype, no quote character) that does not survive repr + _make_content_type: text/plain; a="b\c". *)
+Theorem C16_refuted_F16 : exists i, wf i = true /\ finding_F16 i = true /\ spec_okb i (model i) = false.
+Proof. exact refuted_F16. Qed.
+Print Assumptions C16_refuted_F16.
+
+(* the executable statement implies the readable one (Spec.C16.Spec) *)
+Theorem C16_statement : forall i o, spec_okb i o = true -> Spec i o.
+Proof. exact spec_okb_sound. Qed.
+Print Assumptions C16_statement.
+
+(* the correspondence compares observations exactly, up to re-chunking of byte streams
+   (alpha keeps the joined bytes and whether every chunk is non-empty) *)
+Theorem C16_obs_eqb : forall a b, obs_eqb a b = true <-> alpha a = alpha b.
+Proof. exact obs_eqb_spec. Qed.
+Print Assumptions C16_obs_eqb.
+
+(* ---- bytes: what iter_bytes yields is what the source yields ---- *)
+Theorem C16_bytes :
+  (forall ct cs w, iter_bytes {| c_type := ct; c_src := Stored cs |} w = (Ok cs, w))
+  /\ (forall s w, iter_bytes (text_content s) w = (Ok [utf8_encode s], w))
+  /\ (forall ct k n sk w p, 1 <= n -> start_of k (length (w_data w)) (w_pos w) sk = Ok p ->
+        exists cs w', iter_bytes {| c_type := ct; c_src := Live k n sk |} w = (Ok cs, w')
+                      /\ concat cs = skipn p (w_data w) /\ w_data w' = w_data w).
+Proof. exact (conj bytes_stored (conj bytes_text bytes_live)). Qed.
+Print Assumptions C16_bytes.
+
+(* ---- chunking: proved once for EVERY decoder that is a fold of a byte automaton: the pieces _iter_text yields
+   (one decoder, every chunk in order, one flush), joined, are the whole-string decode of the joined bytes;
+   in particular an undecodable string is an error under every split ---- *)
+Theorem C16_chunking : forall (C : codec) (chunks : list chunk),
+  option_map (@concat N) (iter_text_loop C (dinit C) chunks) = decode_whole C (concat chunks).
+Proof. exact chunking. Qed.
+Print Assumptions C16_chunking.
+
+(* ... instantiated: as_text of a text content in either charset (any spelling codec_of knows, or none) is the
+   whole-string decode, however the bytes are cut *)
+Theorem C16_chunking_as_text : forall C ct chunks w,
+  ct_type ct = sb "text" -> codec_of (declared_charset ct) = Some C ->
+  fst (as_text {| c_type := ct; c_src := Stored chunks |} w) = whole C (concat chunks).
+Proof. exact as_text_whole. Qed.
+Print Assumptions C16_chunking_as_text.
+
+Theorem C16_chunking_indep : forall ct c1 c2 w, concat c1 = concat c2 ->
+  fst (as_text {| c_type := ct; c_src := Stored c1 |} w) = fst (as_text {| c_type := ct; c_src := Stored c2 |} w).
+Proof. exact as_text_split_indep. Qed.
+Print Assumptions C16_chunking_indep.
+
+Theorem C16_chunking_utf8_error : forall chunks,
+  decode_whole utf8 (concat chunks) = None <-> iter_text_loop utf8 U0 chunks = None.
+Proof. exact utf8_undecodable_every_split. Qed.
+Print Assumptions C16_chunking_utf8_error.
+
+Theorem C16_latin1_total : forall bs, decode_whole latin1 bs = Some bs.
+Proof. exact latin1_total. Qed.
+Print Assumptions C16_latin1_total.
+
+(* the enumeration the correspondence uses for "every split" misses none *)
+Theorem C16_splits_complete : forall l s, Forall (fun c => c <> []) s -> concat s = l -> In s (splits l).
+Proof. exact splits_complete. Qed.
+Print Assumptions C16_splits_complete.
+
+(* ---- text round trip.  Per code point: exhaustive sweep over 0 .. 0x10FFFF (17 planes of 2^16; the 1,112,064
+   scalar values are checked, the 2,048 surrogates are exempt), Proof/Utf8Sweep.v; strings: induction, using that
+   the automaton is back in its initial state after every encoded code point ---- *)
+Theorem C16_utf8_code_point : forall c, is_scalar c = true -> feed utf8 U0 (utf8_enc1 c) = Some (U0, [c]).
+Proof. exact utf8_enc1_decodes. Qed.
+Print Assumptions C16_utf8_code_point.
+
+Theorem C16_utf8_roundtrip : forall s, forallb is_scalar s = true -> decode_whole utf8 (utf8_encode s) = Some s.
+Proof. exact utf8_roundtrip. Qed.
+Print Assumptions C16_utf8_roundtrip.
+
+Theorem C16_text_roundtrip : forall s w, forallb is_scalar s = true -> as_text (text_content s) w = (Ok s, w).
+Proof. exact text_roundtrip. Qed.
+Print Assumptions C16_text_roundtrip.
+
+(* ---- json_content: for EVERY dumps function the bytes are the UTF-8 of dumps d (loads . dumps = id is json's
+   contract and is not modelled) ---- *)
+Theorem C16_json : forall (J : Type) (dumps : J -> list N) d w,
+  iter_bytes (json_content J dumps d) w = (Ok [utf8_encode (dumps d)], w)
+  /\ c_type (json_content J dumps d) = Gen.Ctc16.JSON
+  /\ (forallb is_scalar (dumps d) = true -> decode_whole utf8 (utf8_encode (dumps d)) = Some (dumps d)).
+Proof. exact json_bytes. Qed.
+Print Assumptions C16_json.
+
+(* ---- _iter_chunks: for every data, offset (any integer), origin in {SEEK_SET, SEEK_END}, chunk_size >= 1, BytesIO or
+   file: the supplied fuel (remaining length + 1) suffices, the chunks are non-empty, each <= chunk_size, and
+   concatenate to the bytes from the start position - clamped as the stream clamps it - to EOF; one read per chunk
+   plus the final empty one ---- *)
+Theorem C16_iter_chunks : forall k n off wh w, 1 <= n ->
+  match seek_pos k (length (w_data w)) off wh with
+  | Ok p => exists cs, run_reader k n (Some (off, wh)) w = (Ok cs, after_read k w p (S (length cs)))
+                       /\ Forall (fun c => c <> []) cs /\ Forall (fun c => length c <= n) cs
+                       /\ concat cs = skipn p (w_data w)
+  | Raised e => run_reader k n (Some (off, wh)) w = (Raised e, w)
+  end.
+Proof. exact iter_chunks_spec. Qed.
+Print Assumptions C16_iter_chunks.
+
+Theorem C16_iter_chunks_clamp : forall len off,
+  seek_pos KBytesIO len off SeekEnd = Ok (Z.to_nat (Z.max 0 (Z.of_nat len + off))).
+Proof. exact seek_bytesio_clamps. Qed.
+Print Assumptions C16_iter_chunks_clamp.
+
+Theorem C16_read_loop : forall fuel data pos n, 1 <= n -> length data - pos < fuel ->
+  exists cs, read_loop fuel data pos n = Some (cs, Nat.max pos (length data), S (length cs))
+             /\ Forall (fun c => c <> []) cs /\ Forall (fun c => length c <= n) cs
+             /\ concat cs = skipn pos data.
+Proof. exact read_loop_spec. Qed.
+Print Assumptions C16_read_loop.
+
+(* ---- lazy: without buffer_now creation touches nothing (the world, read counter included, is unchanged) and every
+   iteration runs the reader on the world as it is THEN; with buffer_now the reader runs at creation and later
+   iterations return the stored chunks from any world without touching it ---- *)
+Theorem C16_lazy :
+  (forall k ct n sk w,
+     content_from_source k ct n false sk w
+     = (Ok {| c_type := match ct with None => Gen.Ctc16.UTF8_TEXT | Some c => c end; c_src := Live k n sk |}, w))
+  /\ (forall ct k n sk w', iter_bytes {| c_type := ct; c_src := Live k n sk |} w' = run_reader k n sk w')
+  /\ (forall k ct n sk w,
+        match run_reader k n sk w with
+        | (Ok cs, w1) => exists c, content_from_source k ct n true sk w = (Ok c, w1)
+                                   /\ forall w', iter_bytes c w' = (Ok cs, w')
+        | (Raised e, w1) => content_from_source k ct n true sk w = (Raised e, w1)
+        end).
+Proof. exact (conj lazy_creation (conj lazy_iteration buffered_creation)). Qed.
+Print Assumptions C16_lazy.
+
+(* ---- __eq__ <-> equal type and equal joined bytes ---- *)
+Theorem C16_eq : forall ta ca tb cb w,
+  fst (content_eq {| c_type := ta; c_src := Stored ca |} {| c_type := tb; c_src := Stored cb |} w) = Ok true
+  <-> CtSame ta tb /\ concat ca = concat cb.
+Proof. exact eq_iff. Qed.
+Print Assumptions C16_eq.
+
+(* ---- parse (render ct) = ct for wf_ct ---- *)
+Theorem C16_mime_roundtrip : forall ct, wf_ct ct = true ->
+  exists ct', make_content_type (render ct) = Ok ct' /\ CtSame ct' ct.
+Proof. exact mime_roundtrip_same. Qed.
+Print Assumptions C16_mime_roundtrip.
+
+(* ---- snapshots: the copy has the type of the original and yields, from ANY later world and without touching it,
+   exactly the chunks the original yielded at copy time ---- *)
+Theorem C16_snapshot : forall c w cp w1, copy_content c w = (Ok cp, w1) ->
+  c_type cp = c_type c
+  /\ exists cs, iter_bytes c w = (Ok cs, w1) /\ forall w', iter_bytes cp w' = (Ok cs, w').
+Proof. exact snapshot. Qed.
+Print Assumptions C16_snapshot.
+
+(* the tables read from the live code say what the model relies on *)
+Theorem C16_tables : str_eqb (ct_type Gen.Ctc16.UTF8_TEXT) (sb "text") = true
+                     /\ codec_of (declared_charset Gen.Ctc16.UTF8_TEXT) = Some utf8.
+Proof. exact utf8_text_ct. Qed.
+Print Assumptions C16_tables.
+
+(* non-vacuity: an astral + combining + NUL text round-trips; a 3-byte sequence cut in the middle with an empty
+   chunk in between decodes, its truncation raises under a split; a read loop over 5 bytes from offset -4 (SEEK_END)
+   in chunks of 2; an unbuffered content sees the later world, the snapshot does not; a wf_ct type with two
+   parameters round-trips; the F16 witness does not *)
+Example C16_example :
+  as_text (text_content [0x1F600; 0x65; 0x301; 0]%N) w0 = (Ok [0x1F600; 0x65; 0x301; 0]%N, w0)
+  /\ fst (as_text {| c_type := Gen.Ctc16.UTF8_TEXT; c_src := Stored [[0xE2; 0x82]; []; [0xAC]]%N |} w0) = Ok [0x20AC%N]
+  /\ fst (as_text {| c_type := Gen.Ctc16.UTF8_TEXT; c_src := Stored [[0xE2]; [0x82]]%N |} w0) = Raised UnicodeDecodeError
+  /\ fst (run_reader KBytesIO 2 (Some ((-4)%Z, SeekEnd)) (w_init [1; 2; 3; 4; 5]%N 0)) = Ok [[2; 3]; [4; 5]]%N
+  /\ (let c := {| c_type := Gen.Ctc16.UTF8_TEXT; c_src := Live KFile 2 None |} in
+      match copy_content c (w_init [1; 2; 3]%N 0) with
+      | (Ok cp, w1) => fst (iter_bytes cp (set_source w1 [9]%N 0)) = Ok [[1; 2]; [3]]%N
+                       /\ fst (iter_bytes c (set_source w1 [9]%N 0)) = Ok [[9]]%N
+      | _ => False
+      end)
+  /\ wf_ct {| ct_type := sb "text"; ct_sub := sb "x-traceback";
+              ct_params := [(sb "language", sb "python"); (sb "charset", sb "utf8")] |} = true
+  /\ finding_F16 (IMime {| ct_type := sb "text"; ct_sub := sb "plain"; ct_params := [(sb "a", sb "b\c")] |}) = true.
+Proof. vm_compute. repeat split. Qed.
